@@ -27,7 +27,7 @@ pub fn collect(tier: &str, caps: &Caps, rep: &Report) -> Vec<BItem> {
         items.lock().unwrap().push(BItem { space: "nostd/enum".into(), choices: ch.to_vec(), tags: c.tags.clone(), inputs: vec![c.item("S", None).render()], module: c.render_module(), nontrivial: c.nontrivial() });
     });
     rep.add_stats("nostd/enum", &format!("dev({})", eb.unwrap()), &st);
-    let fo = crate::sem_flat::FlatOpts { max_members: 3, max_ghosts: 1, max_depth: 2, positional: false };
+    let fo = crate::sem_flat::FlatOpts { max_members: 3, max_ghosts: 1, max_depth: 2, positional: false, ..crate::sem_flat::FlatOpts::DEF };
     let fb = if quick { Some(3) } else { Some(5) };
     let st = explore(|ctx| crate::sem_flat::gen_child(ctx, &fo), fb, caps, |ch, c| {
         items.lock().unwrap().push(BItem { space: "nostd/flat".into(), choices: ch.to_vec(), tags: c.tags.clone(), inputs: vec![c.item("S", true).render()], module: c.render_module(), nontrivial: true });
